@@ -144,11 +144,21 @@ def direct_ranges(rng, out, thorough):
     # ---- bounded eigenvector, with the implementation's face tolerance
     for _ in range(n // 2):
         bnd = {'a': (-3.0, 5.0), 'b': (0.0, 1.0)}
-        prop = P.BoundedEigenvector(['a', 'b'], bnd, cov=numpy.array([[4.0, 0.3], [0.3, 0.5]]) * rng.choice([1e-4, 1.0, 100.0]))
+        prop = P.BoundedEigenvector(['a', 'b'], bnd, cov=numpy.array([[4.0, 0.3], [0.3, 0.5]]) * rng.choice([1e-4, 1.0, 9.0]))
         prop.bit_generator = numpy.random.PCG64(rng.randrange(1, 10 ** 6))
         x = {'a': rng.choice([-3.0, 5.0, rng.uniform(-3, 5)]), 'b': rng.choice([0.0, 1.0, rng.uniform(0, 1)])}
+        budget = [0]
+
+        def counting(owner, method, a, k, real, budget=budget):
+            budget[0] += 1
+            if budget[0] > 20000:
+                raise IndexError('draw budget exhausted')       # how long a rejection loop may take is C14's subject
+            return real(*a, **k)
         try:
-            r = prop.jump(dict(x))
+            with GenTap(script=counting):
+                r = prop.jump(dict(x))
+        except IndexError:
+            continue
         except Exception as e:      # noqa
             viol.append(dict(what='BoundedEigenvector.jump(%s) raised %r' % (x, e), replay=dict(fromx=x)))
             continue
@@ -204,6 +214,8 @@ def run(seed, tier):
                 "boundaries and poles, all four solid-angle conventions: (a) model jump maps (Dens.v: rejection loops, rounding, wrap, rotation, "
                 "guards) under vm_compute; (b) direct membership of every returned point in the declared domain and refusal from outside; "
                 "(c) proposed_position along runs with adaptive scales. non-trivial = extreme draw or scale; distinct = (family, scale, point, draws)")
+    import sys, time
+    t0 = time.time()
     terms, metas = [], []
     for f, a in ((dens.discrete_cases, dict(n=10 if thorough else 4, bounded=False, extreme=True)),
                  (dens.discrete_cases, dict(n=14 if thorough else 5, bounded=True, extreme=True)),
@@ -236,11 +248,14 @@ def run(seed, tier):
             ref = True
         terms.append('CBDG (-3)%%Z (5)%%Z %s %s' % (core.cZ(xi), core.cbool(ref)))
         metas.append(dict(family='bounded_discrete', kind='guard', fromx=xi, refused=ref))
+    print('C12 phase cases %.1fs' % (time.time() - t0), file=sys.stderr, flush=True)
     failing = core.run_coq_cases('C12', dens.HEADER, terms, per_file=250)
+    print('C12 phase coq %.1fs' % (time.time() - t0), file=sys.stderr, flush=True)
     for f in failing[:12]:
         out.corr_failures.append(dict(note='jump model (Dens.v) and implementation disagree', case=metas[f[0]]))
     out.count('coq_cases', len(terms))
     out.violations += direct_ranges(rng, out, thorough)[:4]
+    print('C12 phase ranges %.1fs' % (time.time() - t0), file=sys.stderr, flush=True)
     if len(out.violations) < 4:
         out.violations += run_positions(rng, out, thorough)[:2]
     # one finding per flag
